@@ -442,12 +442,11 @@ def seq_index_sym(ex, seq, idx):
 def dict_getitem_sym(ex, d, key):
     if isinstance(key, (SInt, SBool)):
         keys = [k for k in d if isinstance(k, int)]
-        k = ex.choose(len(keys) + 1, tag="dictkey")
-        if k == len(keys):
-            ex.assume(mk_bool(z3.And(*[iterm(key) != kk for kk in keys])) if keys else True)
-            raise PyRaise(KeyError(key))
-        ex.assume(mk_bool(iterm(key) == keys[k]))
-        return d[keys[k]]
+        for kk in keys:
+            # branch() only follows the feasible sides, so a key pinned by the path condition does not fork
+            if ex.branch(iterm(key) == int(kk), tag="dictkey"):
+                return d[kk]
+        raise PyRaise(KeyError(key))
     raise Unsupported("dict lookup with opaque key")
 
 
@@ -1058,6 +1057,10 @@ TRANSPARENT_METHODS = {(dict, "update"), (dict, "values"), (dict, "items"), (dic
                        (list, "copy"), (list, "insert"), (set, "add"), (set, "update")}
 
 
+MUTATORS = {"update", "pop", "setdefault", "append", "extend", "insert", "add", "remove", "clear", "popitem", "discard",
+            "sort", "reverse"}
+
+
 def _has_sym(x, depth=2):
     if isinstance(x, Sym):
         return True
@@ -1133,6 +1136,10 @@ def dispatch_call(ex, fn, args, kw):
         if not ok:
             raise Unsupported(f"native call {getattr(fn, '__qualname__', fn)!r} with symbolic arguments")
     ex.native_calls += 1
+    if selfobj is not None and isinstance(selfobj, (dict, list, set)) and not ex.is_fresh(selfobj) \
+            and getattr(fn, "__name__", "") in MUTATORS:
+        ex.writes.append((selfobj, ("call", fn.__name__)))
+        ex.undo_container_snapshot(selfobj)
     try:
         return fn(*args, **kw)
     except (SymLeak, Unsupported, PyRaise):
